@@ -28,6 +28,9 @@ def check(ctx):
     priority_rules(ctx)
     rest(ctx)
     kernel.token_type_uniqueness(ctx, "C01.k", "priority-key-is-the-token-type-but-token-types-may-repeat", "with patterns [x -> 7, [a-z] -> 3, a -> 7] the input \"a\" is reported as type 7 although the pattern with type 3 is listed before the matching pattern with type 7 (priority_of finds the first 7)")
+    # (C06.e: the scanned text is the caller's input itself: reported spans are byte offsets into it)
+    from . import pC06
+    pC06.fresh_iterator_rules(ctx)
     from .common import cache_foundation, language_foundation
     language_foundation(ctx)
     cache_foundation(ctx)
